@@ -769,7 +769,9 @@ PROPS = {
     "C17": {"uses_genconsts": True, "trusted_extra": ["SQLite 3 via github.com/mattn/go-sqlite3 v1.14.16 (cgo): the engine the round trips run on"],
             "runs": [{"kind": "sqlite", "n": {"quick": 400, "thorough": 20000}, "oracle_props": ["C17"]},
                      # the statement that is executed is the one generated for the call's arguments, also under concurrent use
-                     cache_run_spec(proj_cache_events, ["C17"], nq=60, nt=600)]},
+                     cache_run_spec(proj_cache_events, ["C17"], nq=60, nt=600),
+                     # the read half of the round trip at value level for every zoo type (Get, GetAll, iterator loops)
+                     {"kind": "scan", "n": {"quick": 2000, "thorough": 50000}, "oracle_props": ["C17"]}]},
     "C16": {"uses_genconsts": True,
             "runs": [bind_run(proj_bind_c03, ["C16"], nq=3000), {"kind": "determ", "n": {"quick": 600, "thorough": 20000}, "oracle_props": ["C16"]},
                      cache_run_spec(proj_cache_events, ["C16"], nq=60, nt=600)]},
@@ -782,13 +784,18 @@ PROPS = {
     "C12": {"runs": [tx_run_spec(["C12"])]},
     "C09": {"runs": [cache_run_spec(proj_cache_events, ["C09"]), tx_run_spec(["C09", "C12"], compare=False, nq=200)]},
     "C10": {"runs": [cache_run_spec(proj_cache_full, ["C10"])]},
-    "C11": {"runs": [cache_run_spec(proj_cache_full, ["C11"])]},
+    "C11": {"runs": [cache_run_spec(proj_cache_full, ["C11"]),
+                     # a result set that is never closed pins its sql.Stmt: the driver statement is then never closed either
+                     iter_run_spec(proj_iter_account, ["C11"], nq=1500, nt=50000)]},
     "C20": {"runs": [cache_run_spec(proj_cache_events, ["C20"]), tx_run_spec(["C20"], compare=True, nq=200),
                      iter_run_spec(proj_iter_full, ["C20"], nq=2000)]},
     "C13": {"runs": [iter_run_spec(proj_iter_account, ["C13"]),
                      # Get / GetAll with scripted column sets (fewer columns, missing aliases ...): rows and connection released
                      {"kind": "scan", "n": {"quick": 3000, "thorough": 100000}, "oracle_props": ["C13"], "project": proj_scan_c18}]},
-    "C14": {"runs": [iter_run_spec(proj_iter_full, ["C14"])]},
+    "C14": {"runs": [iter_run_spec(proj_iter_full, ["C14"]),
+                     # rows delivered "each exactly once": an explicit loop over two rows into the same destinations (of every
+                     # zoo type, embedded pointers re-allocated between the rows) leaves the second row in them
+                     {"kind": "scan", "n": {"quick": 2000, "thorough": 50000}, "oracle_props": ["C14"]}]},
     "C15": {"runs": [iter_run_spec(proj_iter_c15, ["C15"]),
                      # at value level: what Get stores (first row) and what GetAll appends, for every destination type of the zoo
                      {"kind": "scan", "n": {"quick": 3000, "thorough": 100000}, "oracle_props": ["C15"]}]},
